@@ -86,6 +86,37 @@ def link(out, sources, flavour="plain", wraps=(), cflags=(), libs=("-lm", "-lpth
     return out
 
 
+def isolated(func, timeout=900):
+    """Run func() in a forked child so that a fault or an endless loop of the code under test (called in-process
+    through ctypes) cannot take the check down.  Returns "ok", "signal N", "exit N" or "timeout"."""
+    sys.stdout.flush()
+    pid = os.fork()
+    if pid == 0:
+        code = 0
+        try:
+            func()
+        except BaseException:
+            import traceback
+            traceback.print_exc()
+            code = 77
+        finally:
+            sys.stdout.flush()
+            os._exit(code)
+    t0 = time.time()
+    while True:
+        wpid, status = os.waitpid(pid, os.WNOHANG)
+        if wpid == pid:
+            if os.WIFSIGNALED(status):
+                return "signal %d" % os.WTERMSIG(status)
+            rc = os.WEXITSTATUS(status)
+            return "ok" if rc == 0 else "exit %d" % rc
+        if time.time() - t0 > timeout:
+            os.kill(pid, 9)
+            os.waitpid(pid, 0)
+            return "timeout"
+        time.sleep(0.05)
+
+
 class TlcResult:
     def __init__(self):
         self.exit = None
